@@ -183,7 +183,7 @@ impl Op {
         match self {
             Op::PushInc { .. } | Op::PushDec { .. } => &["C11"],
             Op::PopIf { .. } => &["C08"],
-            Op::IterMut { .. } => &["C08", "C09"],
+            Op::IterMut { .. } => &["C08"],
             Op::Retain { .. } | Op::RetainMut { .. } => &["C08"],
             Op::Extend { .. } | Op::Append { .. } | Op::Convert => &["C07"],
             Op::CloneSwap | Op::CloneFrom { .. } | Op::EqCheck => &["C14"],
@@ -825,11 +825,11 @@ impl<Q: QueueApi> State<Q> {
                             Some((i, p)) => {
                                 let id = i.id();
                                 if !seen.insert(id) {
-                                    return Err(mon.predlog(format!("iter_mut yielded item {} twice", id)));
+                                    return Err(with_prop(mon.predlog(format!("iter_mut yielded item {} twice", id)), "C09"));
                                 }
                                 let e = match model.m.get_mut(&id) {
                                     Some(e) => e,
-                                    None => return Err(mon.content(format!("iter_mut yielded item {} which is not stored", id))),
+                                    None => return Err(with_prop(mon.content(format!("iter_mut yielded item {} which is not stored", id)), "C09")),
                                 };
                                 if p.ord != e.ord || p.tag != e.tag {
                                     return Err(mon.content(format!("iter_mut: id {} priority {} (tag {}) expected {} (tag {})", id, p.ord, p.tag, e.ord, e.tag)));
@@ -853,7 +853,7 @@ impl<Q: QueueApi> State<Q> {
                             }
                             None => {
                                 if seen.len() != model.len() {
-                                    return Err(mon.predlog(format!("iter_mut ended after {} of {} elements", seen.len(), model.len())));
+                                    return Err(with_prop(mon.predlog(format!("iter_mut ended after {} of {} elements", seen.len(), model.len())), "C09"));
                                 }
                             }
                         }
@@ -864,18 +864,18 @@ impl<Q: QueueApi> State<Q> {
                             Some(Some((i, p))) => {
                                 let id = i.id();
                                 if !seen.insert(id) {
-                                    return Err(mon.predlog(format!("iter_mut yielded item {} twice (from the back)", id)));
+                                    return Err(with_prop(mon.predlog(format!("iter_mut yielded item {} twice (from the back)", id)), "C09"));
                                 }
                                 match model.m.get(&id) {
                                     Some(e) if e.ord == p.ord && e.tag == p.tag && e.payload == i.payload => {}
                                     Some(e) => return Err(mon.content(format!("iter_mut (back): id {} priority {} payload {} expected {} / {}", id, p.ord, i.payload, e.ord, e.payload))),
-                                    None => return Err(mon.content(format!("iter_mut yielded item {} which is not stored", id))),
+                                    None => return Err(with_prop(mon.content(format!("iter_mut yielded item {} which is not stored", id)), "C09")),
                                 }
                                 out.push((id, p.ord));
                             }
                             Some(None) => {
                                 if seen.len() != model.len() {
-                                    return Err(mon.predlog(format!("iter_mut ended (from the back) after {} of {} elements", seen.len(), model.len())));
+                                    return Err(with_prop(mon.predlog(format!("iter_mut ended (from the back) after {} of {} elements", seen.len(), model.len())), "C09"));
                                 }
                             }
                         }
@@ -972,6 +972,7 @@ impl<Q: QueueApi> State<Q> {
                         }
                     }
                 }
+                source_ok(&o, &om)?;
                 let other_longer = om.len() > self.m.len();
                 self.q.append(&mut o);
                 // other must be empty and well-formed afterwards
@@ -1059,6 +1060,7 @@ impl<Q: QueueApi> State<Q> {
                         }
                     }
                 }
+                source_ok(&src, &srcm)?;
                 self.q.q_clone_from(&src);
                 if !self.q.eq_q(&src) || !src.eq_q(&self.q) || self.q.ne_q(&src) {
                     return Err(mon.other("M-EQ", "after queue.clone_from(&other) the queue is not equal to other".to_string()));
@@ -1464,6 +1466,31 @@ impl<Q: QueueApi> State<Q> {
         }
         Ok(s)
     }
+}
+
+/// An auxiliary queue built with plain pushes (the argument of append / clone_from) must itself
+/// be well formed before the operation under test is judged on it; if it is not, that is reported
+/// against `push` under the properties of the failed monitor only.
+fn source_ok<Q: QueueApi>(q: &Q, m: &Model) -> R<()> {
+    let mon = Mon { kind: Q::KIND, opname: "push", extra: &[] };
+    let s = q.snapshot();
+    s.tables().map_err(|d| mon.tables(format!("auxiliary queue: {}", d)))?;
+    match Q::KIND {
+        Kind::Pq => s.order_max(),
+        Kind::Dpq => s.order_minmax(),
+    }
+    .map_err(|d| mon.order(format!("auxiliary queue: {}", d)))?;
+    if Model::from_snap(&s).pairs() != m.pairs() {
+        return Err(mon.content(format!("auxiliary queue holds {:?} expected {:?}", Model::from_snap(&s).pairs(), m.pairs())));
+    }
+    Ok(())
+}
+
+pub fn with_prop(mut v: Viol, p: &'static str) -> Viol {
+    if !v.props.contains(&p) {
+        v.props.push(p);
+    }
+    v
 }
 
 /// `extend` / `FromIterator` on a repeated item: which physical item value stays is not
